@@ -3,6 +3,7 @@ package database
 import (
 	"github.com/safing/portbase/database/query"
 	"github.com/safing/portbase/database/record"
+	"github.com/safing/portbase/utils/vhook"
 )
 
 // Subscription is a database subscription for updates.
@@ -21,6 +22,7 @@ func (s *Subscription) Cancel() error {
 		return err
 	}
 
+	vhook.At("db.sub.cancel")
 	c.subscriptionLock.Lock()
 	defer c.subscriptionLock.Unlock()
 
